@@ -159,8 +159,16 @@ class Runner:
                 s.up_state = 'probed'
             if frame != '3probe':
                 clk = self.sim.tick()
+                n0 = len(self.deliveries)
                 self._deliver(s, [pk], 'ws', 'w%d' % id(ws), clk, clk,
                               self.sim.now)
+                if not any(isinstance(f['frame'], str) and
+                           f['frame'][:1] == '5' for f in ws.sent):
+                    for d in self.deliveries[n0:]:
+                        # handed over on a socket on which the client has
+                        # not sent UPGRADE (decided on what it put on the
+                        # wire, not on harness state)
+                        d['before_upgrade'] = True
             return
         clk = self.sim.tick()
         self._deliver(s, [pk], 'ws', 'w%d' % id(ws), clk, clk, self.sim.now)
